@@ -195,6 +195,44 @@ def run(ck, prog):
     ck.ob("R05.6", "find_local-innermost-first", rev, "scopes are iterated in reverse (innermost first)",
           msg="Scopes::find_local does not iterate the scope stack innermost-first")
     ck.count(len(ide))
+    # ---- R05.8 --------------------------------------------------------------------
+    # A construct that opens its own scope binds its variables inside it: in a function that both opens a scope and
+    # binds a variable, no variable is bound at depth 0 (outside every scope this function opened) on a path that
+    # goes on to open one. Bound outside, the variable would live on in the enclosing scope after the construct
+    # ended (and shadow fields / template arguments there).
+    ck.rule("R05.8", "a construct that opens a scope binds its variables after opening it, not into the enclosing scope")
+    ADD_VAR = "ide::index::scope::Scopes::add_variable"
+    n_bind = 0
+    for b in ide:
+        calls = list(b.calls())
+        adds = [i for i, t in calls if Body.callee(t) == ADD_VAR]
+        pushes = {i for i, t in calls if Body.callee(t) == PUSH}
+        pops = {i for i, t in calls if Body.callee(t) == POP}
+        if not adds or not pushes or b.path in (PUSH, POP, ADD_VAR):
+            continue
+        # depth of every reachable (block, depth)
+        seen = {(0, 0)}
+        st = [(0, 0)]
+        while st:
+            blk, d = st.pop()
+            nd = d + (1 if blk in pushes else 0) - (1 if blk in pops else 0)
+            if nd < 0 or nd > 6:
+                continue
+            for nx in b.succ(blk):
+                if (nx, nd) not in seen:
+                    seen.add((nx, nd))
+                    st.append((nx, nd))
+        for a in adds:
+            n_bind += 1
+            outside = (a, 0) in seen
+            later_push = outside and cfg.path_exists(b, a, lambda x: x in pushes) is not None
+            ck.ob("R05.8", "bind-inside:%s:bb%d" % (b.path, adds.index(a)), not later_push,
+                  "variable bound at scope depth >= 1 of this function, or no scope is opened after it",
+                  msg="%s binds a variable before opening the scope of the construct (add_variable at %s, Scopes::push later on "
+                      "the same path): the variable lands in the enclosing scope and stays visible after the construct ended"
+                      % (b.path, b.where(a)))
+    ck.floor("R05.8", "variable bindings in scope-opening functions", n_bind, 4)
+
     ck.rule("R05.7", "a declaration is registered whether or not the type of its value is known")
     from .c18 import rule_registration_before_value
     rule_registration_before_value(ck, prog, "R05.7")
